@@ -182,6 +182,41 @@ def networks(tier, seed):
     yield N("ode-mod-multi", [(["H", "H"], ["H2"], dict(alpha=1.0)), (["H2", "C"], ["CH", "H"], dict(alpha=2.0))],
             ode_modifier={"H2": {"factors": ["fform"], "reactants": [["H", "H"]]},
                           "CH": {"factors": ["-f3"], "reactants": [["H", "C", "H2"]]}})
+    # balanced networks read from files of every line-oriented format, with three-reactant lines (the reader's column handling is part
+    # of what conservation rests on)
+    def from_file(fmt, el_e):
+        def f():
+            from . import native_net as NN
+            fresh_species_state()
+            e = el_e
+            specs = [(["H", "H", "H2"], ["H2", "H2"]), (["H", "H", "H"], ["H2", "H"]), (["H+", e, e], ["H", e]), (["H2", "He+"], ["He", "H+", "H"]),
+                     (["He+", e], ["He"]), (["H", "He+"], ["H+", "He"])]
+            if fmt == "umist":
+                specs = [s for s in specs if len(s[0]) <= 2 and len(s[1]) <= 4]
+            ars = [NN.AR(r, p, 1.0 + k, 0.0, 0.0, 10, 41000, k + 1, {"kida": 3, "umist": "NN", "leeds": 1, "uclchem": "MA"}[fmt]) for k, (r, p) in enumerate(specs)]
+            net = NN.load([NN.ENC[fmt](a) for a in ars], fmt)
+            net._vf_declared_names = {("e-" if n in ("E-", "e-", "E") else n) for r, p in specs for n in r + p}
+            return net
+        return f
+    for fmt_, e_ in (("uclchem", "E-"), ("kida", "e-"), ("leeds", "e-"), ("umist", "e-")):
+        yield f"file-{fmt_}", from_file(fmt_, e_)
+
+    def upper_replacement():
+        # an upper-case element list with a replacement table (UCLCHEM style): counts after a renamed element, ions, ice
+        fresh_species_state()
+        from naunet.species import Species
+        from naunet.network import Network as Net
+        Species.set_known_elements(["H", "HE", "C", "O", "SI", "CL", "MG", "E"])
+        Species.set_known_pseudoelements(["CRP", "PHOTON"])
+        Species._replacement = {"HE": "He", "SI": "Si", "CL": "Cl", "MG": "Mg", "E": "e"}
+        rs = [(["SI", "SI"], ["SI2"]), (["SI2", "H"], ["SI2H"]), (["CL", "CL"], ["CL2"]), (["HCL", "H"], ["H2", "CL"]), (["MG", "H+"], ["MG+", "H"]),
+              (["MG+", "E-"], ["MG"]), (["HE+", "SI2"], ["HE", "SI+", "SI"]), (["SI+", "E-"], ["SI"]), (["CL2", "H"], ["HCL", "CL"])]
+        net = Net([mk_reaction(a, b, alpha=float(k + 1)) for k, (a, b) in enumerate(rs)], elements=["H", "HE", "C", "O", "SI", "CL", "MG", "E"], pseudo_elements=["CRP", "PHOTON"])
+        ren = lambda n: re.sub(r"HE|SI|CL|MG", lambda m: {"HE": "He", "SI": "Si", "CL": "Cl", "MG": "Mg"}[m.group()], n).replace("E-", "e-")
+        net._vf_declared_names = {ren(n) for a, b in rs for n in a + b}
+        return net
+    yield "upper-case-replacement", upper_replacement
+
     def spellings():
         fresh_species_state()
         from naunet.species import Species
